@@ -1222,7 +1222,8 @@ def run(ctx: Ctx) -> None:
         if req[0] == "C13.stale" and isinstance(m, dict):
             # how much of the real staleness lies inside the guard of the `_partial` theorems (`benign_stale_eq_deliver`)
             ctx.count("lts.stale_view", ("current" if req[1]["view"] == req[1]["current"] else
-                                         "older, benign (inside the guard)" if m.get("benign") else "older, NOT benign (outside the guard)"))
+                                         "older, benign (inside the guard)" if m.get("benign") else
+                                         "older, NOT benign (outside the guard): " + ("cleaning differs" if m.get("sameVerdict") else "verdict differs")))
             m = {"status": m["status"], "paused": m["paused"]}
         ctx.compare("C13 transition system: " + ("write semantics" if req[0] == "C13.write" else "stale-view step"), impl, m, wh)
         ctx.case(key={"lts": req[0], "n": min(len(req[1]) if isinstance(req[1], list) else len(req[1]["current"]), 3)}, nontrivial=True)
